@@ -68,7 +68,16 @@ Start == /\ l <= Len(Trace) /\ Rec.kind = "start"
                          map |-> [k \in 1..Kn |-> [f \in 1..F |-> k]], ids0 |-> Rec.ids, ids |-> Rec.ids, fv |-> Rec.fv,
                          seg |-> 1, left |-> IF p = <<>> THEN 0 ELSE p[1][1], f |-> 0, changed |-> FALSE, done |-> FALSE, cen |-> <<>>,
                          nbins |-> 0, moved |-> 0]
-                /\ Emit(FailedOf(<< <<"plan", p = Rec.plan>> >>), FALSE)
+                \* the working features are the caller's mask (Rec.mv) itself, or for 'cos' its rows scaled to unit length
+                \* (fv_t^2 |row|^2 = m_t^2 with equal signs; a zero row stays zero)
+                /\ Emit(FailedOf(<< <<"plan", p = Rec.plan>>,
+                                    <<"features", \A k \in 1..Kn : \A f \in 1..F :
+                                          LET mrow == Rec.mv[k][f] frow == Rec.fv[k][f]
+                                              n2 == FSum([t \in 1..Len(mrow) |-> FSq(mrow[t])])
+                                          IN  IF Rec.metric # "cos" THEN frow = mrow
+                                              ELSE \A t \in 1..Len(mrow) :
+                                                     /\ FSgn(frow[t]) = FSgn(mrow[t])
+                                                     /\ CloseRel(FMul(FSq(frow[t]), n2), FSq(mrow[t]), 64)>> >>), FALSE)
 Iter == /\ l <= Len(Trace) /\ Rec.kind = "iter"
         /\ IF ~m.ok THEN m' = m /\ Emit(<<"diverged">>, FALSE)
            ELSE LET s == m.plan[m.seg][2] e == m.plan[m.seg][3]
